@@ -1,6 +1,8 @@
 package main
 
 import (
+	"net/url"
+	"regexp"
 	"bufio"
 	"encoding/json"
 	"flag"
@@ -174,6 +176,22 @@ func mkValue(kind string) any {
 		return []int(nil)
 	case "named-slice":
 		return namedSlice{1, 2}
+	case "nil-ptr-stringer":
+		return (*time.Time)(nil)
+	case "nil-ptr-error":
+		return (*os.PathError)(nil)
+	case "stringer-value":
+		return time.Second
+	case "string-non-ascii":
+		return "contrase\u00f1a \u043f\u0430\u0440\u043e\u043b\u044c \u00ff\U0001F600!"
+	case "map-nil-stringer-elems":
+		return map[string]any{"name": (*time.Time)(nil), "n": (*url.URL)(nil), "Name": (*time.Time)(nil), "N": (*os.PathError)(nil), "f": error((*os.PathError)(nil))}
+	case "struct-nil-stringer-fields":
+		return struct {
+			Name *time.Time
+			N    *url.URL
+			F    error
+		}{}
 	case "chan":
 		return make(chan int)
 	case "func":
@@ -228,6 +246,15 @@ func mkSchema(name string) panicSchema {
 	switch name {
 	case "string":
 		return panicSchema{z.String().Min(2), reflect.TypeOf("")}
+	case "string-all-tests":
+		// every built-in string test (none short-circuits): each sees whatever text the coercion produced
+		s := z.String().Min(2).Max(1 << 20).Len(5).Email().URL().UUID().Match(regexp.MustCompile("^a+$")).Contains("x").
+			ContainsUpper().ContainsDigit().ContainsSpecial().HasPrefix("a").HasSuffix("b").OneOf([]string{"a", "b"})
+		s = s.Not().Len(3).Not().Email().Not().URL().Not().UUID().Not().Match(regexp.MustCompile("a")).Not().Contains("a").
+			Not().ContainsUpper().Not().ContainsDigit().Not().ContainsSpecial().Not().HasPrefix("c").Not().HasSuffix("c").Not().OneOf([]string{"c"})
+		return panicSchema{s, reflect.TypeOf("")}
+	case "slice-string-tests":
+		return panicSchema{z.Slice(z.String().ContainsSpecial().ContainsUpper().ContainsDigit().Email()).Contains("x").Min(1).Max(3).Len(2), reflect.TypeOf([]string{})}
 	case "int":
 		return panicSchema{z.Int().GT(0), reflect.TypeOf(0)}
 	case "float":
